@@ -711,6 +711,271 @@ def run_cases(run: lib.Run, scale: int = 1):
                                       "spec": "a cached engine returned a decision different from the uncached engine holding the same policy"})
 
 
+# ----------------------------------------------------------------------------- the translated cache protocol vs CPython
+
+P_ENVS = [{"subject": {"id": "u", "roles": ["a"], "attrs": {}}, "action": "read", "resource": {"type": "doc", "id": 1, "attrs": {}}, "context": {}},
+          {"subject": {"id": "é\"\n", "roles": [], "attrs": {"b": 2, "a": [None, True]}}, "action": "read", "context": {"z": {}, "a": "1"}},
+          {"subject": {"id": 1.5}, "context": {"when": datetime(2024, 6, 1, 12, 0)}}]
+P_RAWS = [{"decision": "permit", "reason": "matched", "rule_id": "r", "obligations": []}, {"decision": "deny", "reason": "no_match"}]
+P_GET = [("ok", None), ("ok", P_RAWS[0]), ("ok", P_RAWS[1]), ("ok", {}), ("ok", 0), ("ok", ""), ("raised",)]
+P_DECIDE = [("ok", P_RAWS[0]), ("ok", P_RAWS[1]), ("ok", None), ("raised",)]
+P_SET = [("ok", None), ("raised",)]
+P_GENS = [(0, 0), (3, 3), (3, 4), (4, 3), (True, 1)]
+P_ETAGS = [None, "", "3f9a0c", "e:1"]
+
+
+def _outcome(o):
+    return {"ok": proto.enc(o[1])} if o[0] == "ok" else {"raised": True}
+
+
+def _dumps_outcome(env):
+    try:
+        return ("ok", json.dumps(env, sort_keys=True, separators=(",", ":"), default=str, ensure_ascii=False))
+    except Exception:  # noqa: BLE001
+        return ("raised",)
+
+
+class _StubCache:
+    def __init__(self, get, set_, log):
+        self._get, self._set, self.log = get, set_, log
+
+    def get(self, k):
+        self.log.append(["call", "cache.get", [proto.enc(k)]])
+        if self._get[0] == "raised":
+            raise RuntimeError("cache.get raised")
+        return self._get[1]
+
+    def set(self, k, v, ttl=None):
+        self.log.append(["call", "cache.set", [proto.enc(k), proto.enc(v), proto.enc(ttl)]])
+        if self._set[0] == "raised":
+            raise RuntimeError("cache.set raised")
+
+    def clear(self):
+        self.log.append(["call", "cache.clear", []])
+        if self._set[0] == "raised":
+            raise RuntimeError("cache.clear raised")
+
+
+def proto_cases(run: lib.Run, full: bool):
+    """(cache present, etag, get outcome, decide outcome, set outcome, (gen at start, gen at store time), ttl, env)"""
+    grid = itertools.product((False, True), P_ETAGS, P_GET, P_DECIDE, P_SET, P_GENS, (300, None), range(len(P_ENVS)))
+    r = random.Random(run.seed * 977 + 13)
+    for t in grid:
+        # everything about the protocol itself exhaustively on the first env; the other envs (unicode / floats: the key) on a sample
+        if full or t[7] == 0 or r.random() < 0.15:
+            yield t
+
+
+def translated_vs_python(run: lib.Run, facts: dict) -> tuple[bool, str]:
+    """the translated cache protocol (Generated.Src.guard_normalize_env / guard_cache_key / engine_cache_proto / guard_set_policy,
+    evaluated by `lake env lean --run Rbacx/Run/SrcEvalCacheProto.lean`) against CPython: (1) `guard_cache_key` against the REAL
+    `Guard._cache_key` on the near-duplicate pools of the serialiser tie (floats / datetimes included: there the translation is handed what
+    CPython's json.dumps did) × etags None / '' / hex / one with a colon; (2) the cache range of `_evaluate_core_async` against the SAME
+    statements compiled as a real `async def` from the source text (pytolean_proto.as_python) with a stub cache / `_decide_async` that
+    return the outcome's value or raise and record the calls — cache None / hit / falsy hit / miss / get raises / set raises, key None,
+    generation moved or not, decide returning None or raising — value AND trace; (3) `set_policy` with `_recompute_etag` / `clear_cache`
+    (the methods' own source, compiled) on a stub engine that logs lock, shared-attribute and cache accesses — serialisable / unserialisable
+    policy × compile ok / raising / not importable × cache None / ok / raising — final state AND access trace."""
+    import subprocess
+    import threading
+    import types
+
+    import pytolean_proto as pp
+    import rbacx.core.engine as reng
+    from extractors import src_translation_cacheproto as plug
+    quick = run.tier == "quick"
+    try:
+        src, cfgs, now = plug.configs(real.REPO)
+    except pp.Unsupported as e:
+        return False, str(e)
+    for name in plug.ORDER_OF_TARGETS:
+        if [now[name][k] for k in ("lead", "attrs", "inputs")] != [facts[name][k] for k in ("lead", "attrs", "inputs")]:
+            return False, f"{name}: the signature extracted now differs from the one in Generated.lean"
+    calls = []      # (fn, args, ext, flags, wanted {"out"|"raised", "trace"})
+
+    # ---- (1) the key
+    key_sig = facts["guard_cache_key"]
+    if key_sig["attrs"] != ["policy_etag"] or len(key_sig["inputs"]) != 1:
+        return False, f"guard_cache_key: unexpected inputs {key_sig['attrs']} {key_sig['inputs']}"
+    holder = types.SimpleNamespace(_normalize_env_for_cache=Guard._normalize_env_for_cache)
+    envs = [(lab, v) for lab, v, twin in canon_envs(run, 1)]
+    r = random.Random(run.seed * 131 + 3)
+    for i, (lab, v) in enumerate(envs):
+        if not isinstance(v, dict) and not lab.startswith("hostile"):
+            continue
+        if not (lab.startswith("pool") or not quick or i % 4 == 0):
+            continue
+        try:
+            proto.enc(v)
+        except TypeError:
+            continue
+        for etag in (P_ETAGS if lab.startswith("pool") else [r.choice(P_ETAGS[1:])]):
+            holder.policy_etag = etag
+            want = Guard._cache_key(holder, v)
+            calls.append(("guard_cache_key", [etag, v], {"dumps_other": _outcome(_dumps_outcome(v)), "repr_of": {"ok": repr(v)}}, {},
+                          {"out": want, "trace": []}))
+    n_key = len(calls)
+
+    # ---- (2) the cache range of _evaluate_core_async
+    tgt, cfg = cfgs["engine_cache_proto"]
+    try:
+        py = pp.as_python(src, tgt, cfg, vars(reng))
+    except pp.Unsupported as e:
+        return False, f"engine_cache_proto: {e}"
+    sig = facts["engine_cache_proto"]
+    if sig["attrs"] != ["cache", "_policy_gen#1", "_policy_gen#2", "policy_etag", "cache_ttl"] or py["_inputs"] != sig["inputs"] or len(sig["inputs"]) != 1:
+        return False, f"engine_cache_proto: unexpected inputs {sig['attrs']} {sig['inputs']}"
+    frag = py["_fragment"]
+    for present, etag, g_out, d_out, s_out, (g1, g2), ttl, ei in proto_cases(run, not quick):
+        env = copy.deepcopy(P_ENVS[ei])
+        log: list = []
+
+        class Me:
+            relationship_checker = None
+            _normalize_env_for_cache = staticmethod(Guard._normalize_env_for_cache)
+            _cache_key = Guard._cache_key
+            _policy_lock = threading.Lock()
+            cache = _StubCache(g_out, s_out, log) if present else None
+            policy_etag, cache_ttl = etag, ttl
+            _gens = [g1, g2]
+
+            @property
+            def _policy_gen(self):
+                return self._gens.pop(0)
+
+            async def _decide_async(self, e, d_out=d_out):
+                if d_out[0] == "raised":
+                    raise RuntimeError("decide raised")
+                return d_out[1]
+        coro = frag(Me(), env)
+        try:
+            coro.send(None)
+            coro.close()
+            return False, "engine_cache_proto: the range suspended (a stub never does)"
+        except StopIteration as stop:
+            want = {"out": stop.value, "trace": log}
+        except RuntimeError as e:
+            want = {"raised": str(e), "trace": log}
+        ext = {"cache_get": _outcome(g_out), "cache_set": _outcome(s_out), "decide_async": _outcome(d_out),
+               "dumps_other": _outcome(_dumps_outcome(env)), "repr_of": {"ok": repr(env)}}
+        calls.append(("engine_cache_proto", [None if not present else "<cache>", g1, g2, etag, ttl, env], ext, {}, want))
+    n_range = len(calls) - n_key
+
+    # ---- (3) set_policy
+    tgt, cfg = cfgs["guard_set_policy"]
+    sig = facts["guard_set_policy"]
+    if sig["attrs"] != ["cache", "_policy_gen", "policy", "policy_etag", "_compiled"] or len(sig["inputs"]) != 1:
+        return False, f"guard_set_policy: unexpected inputs {sig['attrs']} {sig['inputs']}"
+    import hashlib
+    from datetime import date
+    pols = [("P-json", {"rules": [{"id": "r", "effect": "permit"}], "algorithm": "deny-overrides"}), ("P-date", {"rules": [], "issued": date(2024, 6, 1)})]
+    for (pname, pol), comp, cache_kind, g in itertools.product(pols, ("ok", "raised", "absent"), ("none", "ok", "raised"), (0, 7)):
+        log = []
+
+        def wire(v, pol=pol, pname=pname):
+            return pname if v is pol else v
+
+        def compile_stub(p, comp=comp, pname=pname):
+            if comp == "raised":
+                raise RuntimeError("compile raised")
+            return f"FN({pname})"
+        try:
+            fns = pp.as_python(src, tgt, cfg, vars(reng), overrides={"compile_policy": None if comp == "absent" else compile_stub})
+        except pp.Unsupported as e:
+            return False, f"guard_set_policy: {e}"
+
+        class Lock:
+            def __enter__(self, log=log):
+                log.append(["acq", "_policy_lock"])
+
+            def __exit__(self, *a, log=log):
+                log.append(["rel", "_policy_lock"])
+                return False
+
+        class Me:
+            _recompute_etag = fns["_recompute_etag"]
+            clear_cache = fns["clear_cache"]
+
+            def __getattribute__(self, name, log=log):
+                if name in plug.SHARED:
+                    log.append(["rd", name])
+                return object.__getattribute__(self, name)
+
+            def __setattr__(self, name, value, log=log, wire=wire):
+                if name in plug.SHARED:
+                    log.append(["wr", name, proto.enc(wire(value))])
+                object.__setattr__(self, name, value)
+        me = Me()
+        for k, v in (("_policy_lock", Lock()), ("cache", None if cache_kind == "none" else _StubCache(("ok", None), (cache_kind,), log)),
+                     ("_policy_gen", g), ("policy", "P-old"), ("policy_etag", "old-etag"), ("_compiled", "old-fn")):
+            object.__setattr__(me, k, v)
+        try:
+            fns["set_policy"](me, pol)
+            want = {"out": [wire(object.__getattribute__(me, a)) for a in ("_policy_gen", "policy", "policy_etag", "_compiled")], "trace": log}
+        except RuntimeError as e:
+            want = {"raised": str(e), "trace": log}
+        try:
+            text = ("ok", json.dumps(pol, sort_keys=True))
+            digest = ("ok", hashlib.sha3_256(text[1].encode("utf-8")).hexdigest())
+        except Exception:  # noqa: BLE001
+            text, digest = ("raised",), ("raised",)
+        ext = {"dumps_sorted_utf8": _outcome(text), "sha3_256_hex": _outcome(digest),
+               "compile_policy": {"raised": True} if comp != "ok" else {"ok": f"FN({pname})"},
+               "cache_clear": _outcome(("ok", None) if cache_kind == "ok" else ("raised",))}
+        calls.append(("guard_set_policy", [None if cache_kind == "none" else "<cache>", g, "P-old", "old-etag", "old-fn", pname], ext,
+                      {"compile_policy_present": comp != "absent"}, want))
+    n_set = len(calls) - n_key - n_range
+
+    lines = [json.dumps({"fn": fn, "args": [proto.enc(a) for a in args], "oracle": proto.build_oracle(*args), "ext": ext, "flags": flags})
+             for fn, args, ext, flags, _ in calls]
+    p = subprocess.run(["lake", "env", "lean", "--run", "Rbacx/Run/SrcEvalCacheProto.lean"], cwd=lib.LEAN, input="\n".join(lines) + "\n",
+                       capture_output=True, text=True, timeout=1800)
+    outs = [ln for ln in p.stdout.split("\n") if ln]
+    if p.returncode != 0 or len(outs) != len(lines):
+        return False, "SrcEvalCacheProto: " + (p.stderr or p.stdout)[-800:]
+    bad = 0
+    for (fn, args, ext, flags, want), ln in zip(calls, outs):
+        got = json.loads(ln)
+        run.count(f"translated-cache-protocol: {fn}")
+        w = {"trace": want["trace"], **({"raised": True} if "raised" in want else {"out": proto.enc(want["out"])})}
+        if got != w:
+            bad += 1
+            if bad == 1:
+                run.disagreements.append({"part": "translated source vs python", "target": fn, "args": args, "outcomes": ext, "flags": flags,
+                                          "impl": {"python": w}, "model": got,
+                                          "what": f"the translated {fn} (Generated.Src) and the same statements run by CPython differ"})
+    run.evaluations += len(calls)
+    return bad == 0, (f"{bad} of {len(calls)} evaluations differ" if bad else
+                      f"agree on {len(calls)} evaluations ({n_key} keys, {n_range} protocol runs, {n_set} set_policy runs)")
+
+
+C08_TRANSLATED = ("C08_translated: Generated.Src.{guard_normalize_env,guard_cache_key,engine_cache_proto,guard_set_policy} (the current source text "
+                  "of Guard._normalize_env_for_cache / _cache_key, of the cache range of _evaluate_core_async and of set_policy / _recompute_etag / "
+                  "clear_cache; cache.get / cache.set / _decide_async / json.dumps / sha3 / compile as outcome parameters) = the key "
+                  "etag:canonJson(env) (None for a falsy etag), the cached step of the model (hit: the cached value, nothing stored; miss: the decision, "
+                  "stored under the key iff the generation is unchanged; no cache / no key: plain decision; a raising cache is swallowed), and the updater "
+                  "program of C09's model (generation bumped, etag and compiled function recomputed from the NEW policy, cache cleared, all inside the lock)")
+
+
+def translated_obligation(run: lib.Run, audit: dict, differential: bool = True) -> tuple[bool, bool, str, dict | None]:
+    """run and register the per-run obligation C08_translated (and, with `differential`, the comparison with CPython); returns
+    (obligation discharged, comparison ok, Lean's message or the comparison's, the extracted translation)"""
+    tr = audit["facts"].get("translated_cacheproto")
+    untranslatable = isinstance(tr, dict) and "extraction_failed" in tr
+    ok_tr, detail_tr = lib.run_obligation("C08_translated")
+    run.obligation(C08_TRANSLATED, ok_tr, "discharged" if ok_tr else (str(tr["extraction_failed"]) if untranslatable else detail_tr))
+    if not differential:
+        return ok_tr, True, detail_tr, tr
+    if untranslatable or not isinstance(tr, dict):
+        ok_py, detail_py = True, "skipped: the cache protocol is not in the translatable subset (see C08_translated)"
+    else:
+        ok_py, detail_py = translated_vs_python(run, tr)
+    run.obligation("translated cache protocol evaluates like the same statements run by CPython (pytolean_proto + Model/PyProto.lean vs CPython: "
+                   "externals raising in the middle of a try, try/finally, lock blocks, two reads of _policy_gen, spliced methods, the real _cache_key)",
+                   ok_py, detail_py)
+    return ok_tr, ok_py, (detail_tr if not ok_tr else detail_py), tr
+
+
 def check(run: lib.Run, audit: dict) -> int:
     run.rule = ("exhaustive: all histories of length ≤3 (quick; length 3 subsampled 1/7) / ≤4 (thorough) over a 12-letter alphabet (evaluate on either "
                 "of two engines sharing the cache: 3 requests incl. a near-duplicate pair; set_policy/update_policy A→B→A and a policy set; "
@@ -725,7 +990,11 @@ def check(run: lib.Run, audit: dict) -> int:
                  "3 policies, gen_value trees, hostile float-free JSON (quotes, backslashes, every control-character class, U+007F/U+0085/U+2028, "
                  "astral, empty containers, ints up to 4300 digits, keys that are prefixes / escapes of each other) and hostile environments, each "
                  "dict-valued case again with every dict's insertion order shuffled; floats ⇒ the model answers null; the real keys on the cache "
-                 "protocol = etag:model text")
+                 "protocol = etag:model text"
+                 "; the translated source of the cache protocol vs CPython: the real Guard._cache_key on the serialiser pools × 4 etags; the cache "
+                 "range of _evaluate_core_async (same statements compiled from the source) over cache None/present × 4 etags × 7 get outcomes × 4 "
+                 "decide outcomes × 2 set outcomes × 5 generation pairs × 2 ttls (× 3 envs sampled; thorough: all); set_policy over 2 policies × "
+                 "compile ok/raising/absent × cache none/ok/raising × 2 generations — value and effect trace")
     run.assumptions = ["KeyFaithful is reduced by Rbacx.C08.c08_key_faithful to: sha3-256 of the sorted policy JSON collision-free on the policies in "
                        "play; the raw decision independent of the ORDER of dict entries of the env; envs JSON-valued, float-free, datetime-free. The "
                        "canonical serialiser itself is PROVED injective up to dict-entry order (c08_canon_json_injective, c08_key_injective) and tied "
@@ -734,6 +1003,8 @@ def check(run: lib.Run, audit: dict) -> int:
                        "the obligation checker is a function of (raw decision, context)"]
     if not audit["ok"]:
         raise lib.CheckError(f"Lean build/audit failed at {audit['stage']}: {audit.get('log') or audit.get('forbidden') or audit.get('bad_axioms')}")
+    # the cache protocol as it is written NOW, translated into Lean, is proved to be the step of the models (per-run obligation)
+    ok_tr, ok_py, detail_tr, tr = translated_obligation(run, audit)
     real_keys = check_keys_and_protocol(run)
     check_canon_model(run, real_keys)
     run_cases(run)
@@ -746,9 +1017,31 @@ def check(run: lib.Run, audit: dict) -> int:
     violations = []
     if run.disagreements and not run.spec_failures:
         check_canon_model(run, real_keys, scale=5)  # correspondence broke: widen the search for two envs sharing a real key
+    if not ok_tr and not run.spec_failures:
+        # the source no longer is the protocol the theorems are about: widen the search for a history on which the cache shows
+        run_cases(run, scale=4)
+        if not run.spec_failures:
+            check_canon_model(run, real_keys, scale=3)
     if run.spec_failures:
         path = run.write_replay("spec", {"what": "C08 violated", "case": run.spec_failures[0], "count": len(run.spec_failures)})
         violations.append((path, True))
+    elif not ok_tr:
+        path = run.write_replay("obligation", {"what": "per-run obligation Rbacx/Run/C08_translated.lean no longer checks: the translated source of the "
+                                               "engine's cache protocol (the cache range of Guard._evaluate_core_async, _cache_key / "
+                                               "_normalize_env_for_cache, set_policy / _recompute_etag / clear_cache) is not proved to be the key "
+                                               "etag:canonJson(env), the cached step of the model (CacheHist.stepCached, the hypotheses of "
+                                               "Rbacx.C08.c08_transparent) and the updater program of Rbacx.Conc; the widened search found no history "
+                                               "on which a cached engine answers differently from an uncached one",
+                                               "translation": {k: (v.get("lean") if isinstance(v, dict) else v) for k, v in tr.items()} if isinstance(tr, dict) else tr,
+                                               "lean": detail_tr[-1500:], "first_disagreement": run.disagreements[:1]})
+        violations.append((path, False))
+    elif not ok_py or any(d.get("part") == "translated source vs python" for d in run.disagreements):
+        first = next((d for d in run.disagreements if d.get("part") == "translated source vs python"),
+                     {"part": "translated source vs python", "what": detail_tr})
+        path = run.write_replay("correspondence", {"what": "translated source vs python: " + str(first.get("what")) + "; the obligation "
+                                                   "C08_translated rests on a translation that CPython contradicts (or that could not be evaluated)",
+                                                   "case": first, "count": len(run.disagreements)})
+        violations.append((path, False))
     elif run.disagreements:
         path = run.write_replay("correspondence", {"what": f"{run.disagreements[0].get('what', CANON_WHAT)}: the model of the cache key's canonical "
                                                    "serialiser and the implementation disagree; theorems Rbacx.C08.c08_canon_json_injective / "
@@ -759,7 +1052,12 @@ def check(run: lib.Run, audit: dict) -> int:
 
 
 def replay(run: lib.Run, audit: dict, path: str) -> int:
-    c = json.load(open(path))["case"]
+    rp = json.load(open(path))
+    c = rp.get("case") or {}
+    if not c:
+        print("nothing to re-run on the implementation:", rp.get("what"))
+        print("recorded:", str(rp.get("lean") or rp.get("first_disagreement"))[:1500])
+        return 0
     if c.get("part") == "canon":
         out = proto.run_driver([{"cmd": "canon-json", "value": proto.enc(c["value"])}])[0]
         print("now: impl :", Guard._normalize_env_for_cache(c["value"])[:1500])
